@@ -46,7 +46,7 @@ def plan(tier, seed):
 
 def minimums(tier):
     return {"ud.calls_checked": 1500, "src.calls_checked": 800, "imports.pels_checked": 2000, "containment.pairs": 500,
-            "noplugins.decodes": 500, "noplugins.subprocess_runs": 10, "m2c00.routing_checked": 900,
+            "noplugins.decodes": 500, "noplugins.subprocess_runs": 100, "m2c00.routing_checked": 900,
             "osrc.component_routing": 200, "osrc.bc_routing": 40, "callout.calls_checked": 100}
 
 
@@ -290,7 +290,9 @@ def run_m2c00(spec, ctx, rng, u):
     for _ in range(spec["reps"]):
         for sub in range(256):
             for ver in (0, 1, 2, 3, rng.randrange(4, 256)):
-                payload = rng.choice([iogen.gen_ilog(rng, [], 4), iogen.gen_trace(rng, [], nentries=2), bytes(rng.randrange(256) for _ in range(40))])
+                payload = rng.choice([iogen.gen_ilog(rng, [], 4), iogen.gen_trace(rng, [], nentries=2), bytes(rng.randrange(256) for _ in range(40)),
+                                      bytes(rng.randrange(1, 256) for _ in range(rng.choice([5, 13, 45]))) + b"\0" * 3,
+                                      bytes(rng.randrange(256) for _ in range(44)) + b"\0" * 4])
                 del log[:]
                 ctx.current = {"subtype": sub, "version": ver, "payload": payload[:200]}
                 ctx.case(bytes([sub, ver]) + payload, sub in want_kind)
@@ -353,7 +355,14 @@ def run_noplugins(spec, ctx, rng, u, reg):
         pels = [build_pel(rng, u, reg, False) for _ in range(6)]
         for k, p in enumerate(pels):
             d.add(dirs.Entry("p%d.pel" % k, p, p.encode()))
-        for argv in (["-p", d.root, "-a", "-E", "-P"], ["-p", d.root, "-l", "-E", "-P"], ["-f", d.entries[0].path, "-E", "-P"]):
+        e0 = d.entries[0]
+        os.rename(e0.path, os.path.join(d.root, "20240101_%08X.pel" % e0.pel.eid))      # findable by --id
+        e0.path = os.path.join(d.root, "20240101_%08X.pel" % e0.pel.eid)
+        for argv in (["-p", d.root, "-a", "-E", "-P"], ["-p", d.root, "-l", "-E", "-P"], ["-f", d.entries[0].path, "-E", "-P"],
+                     ["-p", d.root, "-P", "-i", "%08X" % e0.pel.eid], ["-p", d.root, "-P", "--bmc-id", str(e0.pel.bmcid)],
+                     ["-p", d.root, "-P", "--plid", "%08X" % e0.pel.plid], ["-p", d.root, "-P", "--src", "B"],
+                     ["-p", d.root, "-P", "-j", "-o", d.root + "_out"], ["-p", d.root, "-P", "-a", "-x"]):
+            os.makedirs(d.root + "_out", exist_ok=True)
             ctx.current = {"argv": argv}
             ctx.case(repr(argv) + str(i) + str(spec["rseed"]), True)
             p = subprocess.run([env.PY, boot] + argv, env=env.child_env(), stdout=subprocess.PIPE, stderr=subprocess.PIPE, timeout=120)
@@ -365,7 +374,9 @@ def run_noplugins(spec, ctx, rng, u, reg):
                 continue
             mods = json.loads(line[-1][9:])
             if mods:
-                ctx.violation("C18/import-with-plugins-disabled", "peltool %s imported parser modules %s" % (" ".join(argv[-3:]), mods[:6]))
+                ctx.violation("C18/import-with-plugins-disabled", "peltool %s imported parser modules %s" % (" ".join(argv[2:5]), mods[:6]))
+        import shutil
+        shutil.rmtree(d.root + "_out", ignore_errors=True)
         d.remove()
         for p in pels:
             check_pel(ctx, p, False, rng)
